@@ -17,6 +17,7 @@ CONSTANTS
  LockDel = FALSE
  LockDelEarly = FALSE
  ObsFilters = {"none", "t1", "x"}
+ ListConc = FALSE
  CowIndex = FALSE
 INIT GInit
 NEXT GNext
